@@ -64,7 +64,7 @@ type hist struct {
 	// exportedOnly: the object was decoded and not read yet; unexported fields may be in a lazy
 	// form only the pack's own accessors resolve, so only exported fields are touched
 	exportedOnly bool
-	found    bool // a finding (known or not) was reported: object and model may have parted
+	found        bool // a finding (known or not) was reported: object and model may have parted
 }
 
 func (h *hist) logf(f string, a ...interface{}) { h.log = append(h.log, fmt.Sprintf(f, a...)) }
